@@ -78,7 +78,97 @@ def await_rule(ck, F, E, P):
                "(after the reply, after REENTER, after break + CONT at the prompt)" % sorted(set(early)), ei.span)
 
 
+def coercion_table(ck, F):
+    """Value::coerce_from_data_element is the 2x2 table the statement relies on: a reply item that is text (which includes the
+    empty reply) offered to a numeric variable is DataTypeMismatch -- the REENTER trigger -- and every other cell is Ok with
+    the variable's kind.  Decided per path: the `$` test on the name, the DataElement variant, the outcome."""
+    from lib import path_records, dollar_predicates
+    b = get_fn(ck, F, "Value::coerce_from_data_element")
+    if b is None:
+        return
+    preds = {p.split("::")[-1] for p in dollar_predicates(F)}
+    cells = {}
+    bad = []
+    for r in path_records(b):
+        sv = el = None
+        for d in r["decisions"]:
+            cn = [x[1].split("::")[-1] for x in expr_calls(d[3])]
+            if d[2] in (True, False) and ("ends_with" in cn or preds & set(cn)):
+                sv = d[2]
+            elif d[2] in ("String", "Number"):
+                el = d[2]
+        if r["outcome"] is None and not r["aggs"]:
+            continue      # unwinding / bookkeeping path
+        if sv is None or el is None:
+            bad.append("a path decides without testing both the name's `$` and the item's kind (%s)" % [(d[0][:40], d[2]) for d in r["decisions"]])
+            continue
+        out = r["outcome"] or "?"
+        vals = [a[1] for a in r["aggs"] if a[0].endswith("value::Value")]
+        want = "Err:DataTypeMismatch" if (not sv and el == "String") else "Ok"
+        got = out if out.startswith("Err") else ("Ok" if out == "Ok" else out)
+        kind_ok = True
+        if want == "Ok" and vals:
+            kind_ok = vals[-1] == ("String" if sv else "Number")
+        cells[(sv, el)] = got
+        if got != want or not kind_ok:
+            bad.append("%s variable, %s item: %s%s (expected %s)" % ("string" if sv else "numeric", el, got,
+                                                                      "" if kind_ok else " of the wrong kind", want))
+    ck.floor("C08.cells of the coercion table", len(cells), 4)
+    ck.require(not bad, "C08:COERCE:table", "coercion of a reply item",
+               "text -> numeric variable is DataTypeMismatch on every path; the other three cells give a value of the variable's kind",
+               "coerce_from_data_element no longer implements the reply table: %s -- a reply that is text (e.g. an empty one) is "
+               "stored into a numeric variable instead of giving REENTER" % "; ".join(sorted(set(bad))), b.span)
+
+
+def host_reply_rule(ck, F):
+    """"all reply texts (.. empty ..)": whatever the user answers at the `?` prompt is what INPUT sees.  In the hosts of this
+    repository the text handed to Interpreter::provide_input is a parameter (web adapter) or the payload of the line reader's
+    result (CLI) -- not something a local helper has filtered, trimmed or retried (a helper that re-prompts on a blank line keeps
+    an empty reply from ever reaching a waiting INPUT)."""
+    n = 0
+    for p, body in sorted(F.bodies.items()):
+        if body.crate == "abasic_core" or "__wasm_bindgen_generated" in p:
+            continue
+        for c in body.calls():
+            if not c.callee.endswith("Interpreter::provide_input"):
+                continue
+            n += 1
+
+            def verdict(b, e, depth=0):
+                e = strip_expr(e)
+                while e[0] in ("place", "ref", "cast") and isinstance(e[1] if e[0] != "cast" else e[2], tuple):
+                    e = strip_expr(e[1] if e[0] != "cast" else e[2])
+                if e[0] == "param":
+                    return None
+                if e[0] != "call":
+                    return "is computed (%s)" % show(e)[:60]
+                nm = e[1].split("::")[-1]
+                hb = F.bodies.get(e[1])
+                if hb is None:
+                    if nm in ("readline", "read_line", "readline_with_initial"):
+                        return None
+                    if nm in ("to_string", "to_owned", "into", "from", "clone", "unwrap", "expect", "unwrap_or_default"):
+                        return verdict(b, e[2][0], depth) if e[2] else "is computed"
+                    return "passes through %s" % nm
+                if depth >= 2:
+                    return "passes through nested helpers"
+                if hb.natural_loops():
+                    return "comes from %s, which loops (a reply can be read and discarded)" % nm
+                if any(x.callee.split("::")[-1] in ("trim", "trim_start", "trim_end", "is_empty", "to_uppercase", "to_lowercase",
+                                                     "replace", "split", "filter") for x in hb.calls()):
+                    return "comes from %s, which inspects or rewrites the text" % nm
+                return verdict(hb, hb.binding_expr(0, 12), depth + 1)
+            why = verdict(body, body.expr(c.args[1]))
+            ck.require(why is None, "C08:HOST:reply-verbatim:%s" % p.split("::")[-1], "hosts forward the reply",
+                       "%s hands provide_input its parameter / the line reader's result unchanged" % p,
+                       "in %s the reply given to provide_input %s: some replies (an empty one) never reach the waiting INPUT, or "
+                       "reach it altered" % (p, why), c.span)
+    ck.floor("C08.host call sites of provide_input", n, 2)
+
+
 def run(ck, F, E):
+    coercion_table(ck, F)
+    host_reply_rule(ck, F)
     # ---- (1)
     cs = sorted({b.path for b, _ in callers_of(F, "Interpreter::rewind_program_and_await_input")})
     ck.require(cs == [SE + "::evaluate_input_statement"], "C08:REWIND:callers", "only INPUT rewinds",
